@@ -169,10 +169,7 @@ macro_rules! bed_n {
                 Ok(Err(e)) => {
                     match d.invalid {
                         Some(why) => mon.c(&format!("bed.writer_rejected[{why}]"), 1),
-                        None => {
-                            mon.c("bed.writer_rejected[unexpected]", 1);
-                            mon.v("bed-write:unexpected-rejection", format!("writer rejects {rb:?}: {e}"));
-                        }
+                        None => mon.c(&format!("bed.writer_rejected[other:{:?}]", e.kind()), 1),
                     }
                     return;
                 }
@@ -186,9 +183,6 @@ macro_rules! bed_n {
                 // the writer let a value through that breaks the precondition (TAB / line terminator /
                 // non-printable): not judged, but counted
                 mon.c("bed.invalid_value_accepted_not_judged", 1);
-                if bytes.iter().filter(|&&b| b == b'\t').count() != N + d.other.len() - 1 || bytes[..bytes.len().saturating_sub(1)].contains(&b'\n') {
-                    mon.v("bed-text:delimiter-inside-field-accepted", format!("writer emits a field with a raw delimiter: {}", show(&bytes)));
-                }
                 return;
             }
             // (ii) text level
